@@ -155,6 +155,9 @@ void UtilContext::disasm(uint32_t start, uint32_t end)
       }
     }
 
+    // The page at 0xffff0000 is the last one (n would wrap around to 0).
+    if (n + data_size < n) { break; }
+
     n += data_size;
   }
 
